@@ -925,6 +925,109 @@ static void run_r6(int pos, int order, int pk, int nf3, vf_result *r)
 }
 #define N_R6 (3 * 2 * 2 * 2)
 
+/* ---- R7: frequencies set again between two solves ------------------- */
+
+/*
+ * The frequency vector of a vnacal_new_t may be set again; the calibration
+ * that the next solve produces carries the frequencies in force then, also
+ * when an earlier solve's result was never added to the vnacal_t.
+ */
+static void run_r7(int typei, int pending, vf_result *r)
+{
+    static const vnacal_type_t tt[2] = { VNACAL_T8, VNACAL_E12 };
+    const double band_a[3] = { 1.0e9, 1.5e9, 2.0e9 };
+    const double band_b[3] = { 5.0e9, 6.0e9, 8.0e9 };
+    static const int par[3] = { VNACAL_SHORT, VNACAL_OPEN, VNACAL_MATCH };
+    static const double complex gam[3] = { -1.0, 1.0, 0.0 };
+    vnacal_t *vcp;
+    vnacal_new_t *vnp;
+    int ci = -1;
+
+    vf_desc(r, "R7 %s 1x1: solved on 1..2 GHz%s, frequencies set again to "
+	    "5..8 GHz, solved again and added: the calibration carries the "
+	    "second set", vnacal_type_to_name(tt[typei]), pending ?
+	    " (result not added)" : " (result added under another name)");
+    vf_errlog_reset(&elog);
+    vcp = vnacal_create((vnaerr_error_fn_t *)vf_errfn, &elog);
+    vnp = vnacal_new_alloc(vcp, tt[typei], 1, 1, 3);
+    if (vcp == NULL || vnp == NULL ||
+	    vnacal_new_set_frequency_vector(vnp, band_a) != 0) {
+	vf_fail(r, "r7:setup", "set-up failed");
+	goto out;
+    }
+    for (int k = 0; k < 3; ++k) {
+	double complex m0[3];
+	double complex *mm[1] = { m0 };
+	for (int f = 0; f < 3; ++f)
+	    m0[f] = (0.03 + 0.02 * I) + (0.9 - 0.15 * I + 0.01 * f) * gam[k] /
+		(1.0 - (-0.05 + 0.1 * I) * gam[k]);
+	if (vnacal_new_add_single_reflect_m(vnp, mm, 1, 1, par[k], 1) != 0) {
+	    vf_fail(r, "r7:setup", "standard rejected: %s",
+		    elog.count ? elog.msg[0] : "");
+	    goto out;
+	}
+    }
+    if (vnacal_new_solve(vnp) != 0) {
+	vf_fail(r, "r7:setup", "first solve failed: %s",
+		elog.count ? elog.msg[0] : "");
+	goto out;
+    }
+    if (!pending && vnacal_add_calibration(vcp, "first", vnp) < 0) {
+	vf_fail(r, "r7:setup", "first add failed");
+	goto out;
+    }
+    r->transitions += 6;
+    if (vnacal_new_set_frequency_vector(vnp, band_b) != 0 ||
+	    vnacal_new_solve(vnp) != 0 ||
+	    (ci = vnacal_add_calibration(vcp, "second", vnp)) < 0) {
+	vf_fail(r, "r7:second", "setting the frequencies again, solving and "
+		"adding failed: %s", elog.count ? elog.msg[0] : "");
+	goto out;
+    }
+    {
+	const double *fv = vnacal_get_frequency_vector(vcp, ci);
+	double complex mv[1] = { 0.4 + 0.1 * I };
+	double complex *mp[1] = { mv };
+	vnadata_t *vdp = vnadata_alloc((vnaerr_error_fn_t *)vf_errfn, &elog);
+	for (int f = 0; f < 3; ++f)
+	    if (fv == NULL || fv[f] != band_b[f]) {
+		vf_fail(r, "r7:stale-frequencies", "calibration solved "
+			"after the frequencies were set to %g, %g, %g Hz "
+			"reports frequency %d as %g Hz", band_b[0], band_b[1],
+			band_b[2], f, fv ? fv[f] : -1.0);
+		break;
+	    }
+	if (r->status == VF_OK && (vnacal_get_fmin(vcp, ci) != band_b[0] ||
+		    vnacal_get_fmax(vcp, ci) != band_b[2]))
+	    vf_fail(r, "r7:stale-frequencies", "fmin/fmax are %g/%g Hz",
+		    vnacal_get_fmin(vcp, ci), vnacal_get_fmax(vcp, ci));
+	if (r->status == VF_OK && vdp != NULL) {
+	    /* inside the first band only: outside this calibration */
+	    errno = 0;
+	    int rc = vnacal_apply_m(vcp, ci, &band_a[1], 1, mp, 1, 1, vdp);
+	    if (rc != -1 || errno != EINVAL)
+		vf_fail(r, "r7:old-band-accepted", "apply at %g Hz, inside "
+			"the first band and far below the second, returned "
+			"%d errno %d", band_a[1], rc, errno);
+	    vf_errlog_reset(&elog);
+	    rc = vnacal_apply_m(vcp, ci, &band_b[1], 1, mp, 1, 1, vdp);
+	    if (r->status == VF_OK && rc != 0)
+		vf_fail(r, "r7:new-band-refused", "apply at %g Hz, a "
+			"frequency of the calibration, failed: %s", band_b[1],
+			elog.count ? elog.msg[0] : "");
+	    r->transitions += 2;
+	}
+	vnadata_free(vdp);
+    }
+    r->nontrivial = 1;
+    vf_outcome(r, "R7 %s", pending ? "pending" : "added");
+out:
+    if (vnp != NULL)
+	vnacal_new_free(vnp);
+    vnacal_free(vcp);
+}
+#define N_R7 (2 * 2)
+
 /* ---- case space ------------------------------------------------------ */
 
 #define N_R0 (7 * NSPACING * NFUNC)
@@ -940,7 +1043,7 @@ static const int grid_n[NGRIDN] = { 1, 2, 3, 4, 5, 7 };
 
 static long count(int tier)
 {
-    return N_R0 + N_R1 + n_r2(tier) + N_R3 + N_R4 + N_R5 + N_R6;
+    return N_R0 + N_R1 + n_r2(tier) + N_R3 + N_R4 + N_R5 + N_R6 + N_R7;
 }
 
 static void run(int tier, long idx, vf_result *r)
@@ -971,6 +1074,10 @@ static void run(int tier, long idx, vf_result *r)
 	int fn = vf_digit(&idx, 2);
 	int sp = vf_digit(&idx, NSPACING);
 	run_r4(grid_n[idx], sp, fn, ov, r);
+    } else if (idx - N_R4 >= N_R5 + N_R6) {
+	idx -= N_R4 + N_R5 + N_R6;
+	int pending = vf_digit(&idx, 2);
+	run_r7((int)idx, pending, r);
     } else if (idx - N_R4 >= N_R5) {
 	idx -= N_R4 + N_R5;
 	int nf3 = vf_digit(&idx, 2);
@@ -998,7 +1105,9 @@ vf_driver vf_drv = {
 	"spacing x dependence x vector x coverage); R4 (sigma grid size x "
 	"spacing x dependence); R5 (vector standards through a solve); R6 "
 	"(a one-point vector on, below and above a calibration of 1 or 3 "
-	"frequencies x call order x parameter kind); a case is non-trivial when it reached its "
+	"frequencies x call order x parameter kind); R7 (frequencies set again "
+	"between two solves, with the first result pending or added); a "
+	"case is non-trivial when it reached its "
 	"comparisons; 'between knots' exactness is only required for "
 	"functions inside the class the documented window reproduces",
     .count = count,
